@@ -1,9 +1,10 @@
 #!/bin/bash
-# source this: background sweeps build from a snapshot of the harness and work on a scratch worktree of /repo,
-# so that neither /verif/mc nor /repo is disturbed while they run
-mkdir -p /verif/.sweep/out
-rsync -a --delete /verif/mc/ /verif/.sweep/mc/ --exclude target
-rsync -a --delete /verif/vendor/ /verif/.sweep/vendor/
-if [ ! -d /verif/.sweep/repo ]; then git -C /repo worktree add -q --detach /verif/.sweep/repo HEAD; fi
-git -C /verif/.sweep/repo checkout -q --detach "$(git -C /repo rev-parse HEAD)" && git -C /verif/.sweep/repo checkout -q -- . && git -C /verif/.sweep/repo clean -fdq src
-export VERIF_MC_DIR=/verif/.sweep/mc VERIF_TARGET=/verif/.sweep/target VERIF_OUT=/verif/.sweep/out VERIF_REPO=/verif/.sweep/repo
+# source this [name]: background sweeps build from a snapshot of the harness and work on a scratch worktree of
+# /repo, so that neither /verif/mc nor /repo is disturbed while they run. Different names = independent sweeps.
+SW=/verif/.sweep${1:+-$1}
+mkdir -p $SW/out
+rsync -a --delete /verif/mc/ $SW/mc/ --exclude target
+rsync -a --delete /verif/vendor/ $SW/vendor/
+if [ ! -d $SW/repo ]; then git -C /repo worktree add -q --detach $SW/repo HEAD; fi
+git -C $SW/repo checkout -q --detach "$(git -C /repo rev-parse HEAD)" && git -C $SW/repo checkout -q -- . && git -C $SW/repo clean -fdq src
+export VERIF_MC_DIR=$SW/mc VERIF_TARGET=$SW/target VERIF_OUT=$SW/out VERIF_REPO=$SW/repo
